@@ -307,7 +307,8 @@ class LinearPolynomial(BaseDeferred):
             # exported by other files), hence the loop.
             while not_ready_keys:
                 for key in not_ready_keys:
-                    if not key.is_awaiting:
+                    # (a variable that has cancelled out in the meantime is not needed at all)
+                    if not key.is_awaiting and any(key is remaining for remaining in self.coeffs):
                         key.wait()
                 previous_keys = not_ready_keys
                 not_ready_keys = self._substitute_known_variables()
